@@ -556,12 +556,14 @@ func (s *Sim) checkConvergence(c *Client) {
 			s.stat("exempt.unsure_query_variant", 1)
 			continue
 		}
-		if v.Deleted {
-			c.violate("C03", "d", "delete-lost", "client %s still holds %s as live although the service deleted it and everything has been delivered", c.Name, rid)
+		if s.refetchFailed[v] {
+			// a query request or re-fetch through which the gateway would have
+			// learnt the current state (or the deletion) was not answered properly
+			s.stat("exempt.refetch_failed", 1)
 			continue
 		}
-		if s.refetchFailed[v] {
-			s.stat("exempt.refetch_failed", 1)
+		if v.Deleted {
+			c.violate("C03", "d", "delete-lost", "client %s still holds %s as live although the service deleted it and everything has been delivered", c.Name, rid)
 			continue
 		}
 		if v.Dirty {
@@ -889,6 +891,40 @@ func (s *Sim) oracleEndOfRun() {
 	s.checkIntervals(false)
 }
 
+// nonTrivial: the run exercised what the property under check is about (the
+// rule per property is spelt out in tools/runner/plans.go and in the evidence).
 func (s *Sim) nonTrivial() bool {
-	return s.Stats["frames_received"] > 0 || s.Stats["obs"] > 20
+	st := s.Stats
+	trig := st["fault.revocation_trigger_reaccess"] + st["fault.revocation_trigger_reset"] + st["fault.revocation_trigger_token"]
+	switch strings.TrimSuffix(s.Cfg.Prop, "base") {
+	case "C01":
+		return st["oracle.C01.a"] > 0 && st["client_event_frames"] > 0
+	case "C02":
+		return st["resource_set_while_holding"] > 0
+	case "C03":
+		return st["oracle.C03.strict"]+st["oracle.C03.relaxed"] > 0 && st["client_event_frames"] > 0
+	case "C04":
+		return st["oracle.C04.a"] > 0 && trig > 0
+	case "C05":
+		return st["oracle.C05.a"] > 0 && trig > 0
+	case "C06":
+		return st["oracle.C06.a"] > 0
+	case "C07":
+		return st["concurrent_client_requests"] > 0
+	case "C08":
+		return st["oracle.C08.a"] >= 2
+	case "C09":
+		return st["event_subscription_released"] > 0 && st["oracle.C09.e"] > 0
+	case "C10":
+		return st["fault.token_reset"] > 0 || st["fault.token_event"] >= 2
+	case "C12":
+		return st["oracle.C12.a_refetches"] > 0
+	case "C13":
+		return st["oracle.C13.a_must"] > 0
+	case "C15":
+		return st["deliveries"] > 0
+	case "C19":
+		return s.Probes["reset_throttle_saturated"]+s.Probes["reference_throttle_saturated"] > 0
+	}
+	return st["frames_received"] > 0 || st["obs"] > 20
 }
